@@ -66,7 +66,7 @@ def lib_sources():
 
 class Variant:
     """A build variant: '<base>[+mod]*'.
-    base: prod | asan | msan | tsan | clang | tsanclang | asanclang | gcc
+    base: prod | make | asan | msan | tsan | clang | tsanclang | asanclang | gcc
     mods: W32 UNAL0 NEUTRAL NOSIMD NOAVX2 NOBUILTIN NATIVE NDEBUG UCHAR LTO O0 O1 O2 O3 Os Og"""
 
     def __init__(self, name):
@@ -98,7 +98,7 @@ class Variant:
         self.unaligned = self.cfg.get("UNALIGNED", 1)
         b = self.base
         self.san = []
-        if b in ("prod", "gcc"):
+        if b in ("prod", "gcc", "make"):      # "make": the library is built by the repository's own src/Makefile (see build_lib)
             self.cc = "gcc"; o = shipped_opt
         elif b == "clang":
             self.cc = "clang"; o = shipped_opt
@@ -164,6 +164,19 @@ def build_lib(vname):
     v = Variant(vname)
     out = os.path.join(workdir(), "lib-" + re.sub(r"[^A-Za-z0-9]", "_", vname))
     os.makedirs(out, exist_ok=True)
+    if v.base == "make":
+        # the static library exactly as the repository's Makefile builds it (per-file flags and all), in a scratch copy of the
+        # working tree; only the verification guard is added through the environment (the Makefile appends to CFLAGS)
+        for d in ("src", "include"):
+            shutil.copytree(os.path.join(REPO, d), os.path.join(out, d), dirs_exist_ok=True)
+        shutil.copy(os.path.join(REPO, "options.mak"), out)
+        p = subprocess.run(["make", "-C", os.path.join(out, "src"), "clean", "libskinny.a"], stdout=subprocess.PIPE, stderr=subprocess.PIPE, text=True,
+                           env=dict(os.environ, CFLAGS="-g -D" + GUARD + " " + " ".join(v.extra)))
+        if p.returncode != 0:
+            raise HarnessError("make of the library failed:\n" + p.stderr[-3000:])
+        shutil.copy(os.path.join(out, "src", "libskinny.a"), os.path.join(out, "libskinny.a"))
+        _libs[vname] = out
+        return out
     srcs = lib_sources()
 
     def cc(src):
